@@ -74,6 +74,9 @@ def callsIn : GSpec → List (String × Nat)
   | .dict _ _ _ sub => ("GROUP", 0) :: callsIn sub
   | .limit oid _ sub => ("Limit.glomit", oid) :: callsIn sub
   | .nested gid g => ("GROUP", 0) :: ("Group.glomit", gid) :: ("target_iter", 0) :: callsIn g
+  | .foldG oid _ gid g =>
+    ("GROUP", 0) :: ("Fold.glomit", oid) :: ("Fold._agg", oid) :: ("Merge._agg", oid) ::
+      ("Group.glomit", gid) :: ("target_iter", 0) :: callsIn g
 
 /-- the evaluation `glom(target, <Group object gid with spec g>)` -/
 def callsOf (gid : Nat) (g : GSpec) : List (String × Nat) :=
